@@ -155,6 +155,8 @@ impl<T: Ord + Copy> BinaryHeap<T> {
         best = self.better(best, 3); best = self.better(best, 4); best = self.better(best, 5);
         match best { Some(b) => self.slots[b].take(), None => None }
     }
+    /// verification-only view of the content
+    pub(crate) fn verif_slots(&self) -> &[Option<T>; 6] { &self.slots }
     pub(crate) fn peek(&self) -> Option<&T> {
         let mut best = None;
         best = self.better(best, 0); best = self.better(best, 1); best = self.better(best, 2);
